@@ -248,3 +248,36 @@ class kern_to_ekern:
     def raises():
         imp = calls_of('Importer()')
         return {'Exception': False if len(imp) == 0 else len(imp[0]['importer'].errors) > 0}
+
+
+# ---------------------------------------------------------------------------------------------------- C07 / C14: iterating a document
+@contract(DOC + '__iter__', props=['C07', 'C14'])
+class document_iter:
+    """iterating a document yields the measure indexes first..count, from a NEW iterator object on every call: nothing is stored in
+    the document (two iterations of one document are independent of each other)"""
+    def inputs(g):
+        return {'self': mk_document_index(g)}
+
+    modifies = ()
+
+    def requires(self):
+        return len(self.measure_start_tree_stages) > 0
+
+    def post_fresh_iterator_from_the_first_measure(result, self):
+        first = next(result)
+        return conj(result is not self, first == 1, next(result, -1) == (2 if len(self.measure_start_tree_stages) >= 2 else -1))
+
+
+@contract(DOC + '__next__', props=['C14'])
+class document_next:
+    """next(document) does not advance anything stored in the document"""
+    def inputs(g):
+        return {'self': mk_document_index(g)}
+
+    modifies = ()
+
+    def requires(self):
+        return len(self.measure_start_tree_stages) > 0
+
+    def post_first_measure(result):
+        return result == 1
